@@ -369,6 +369,10 @@ class BinaryStrOperator():
         return "({}) {} ({})".format(self.left, self.op, self.right)
 
     def evalExpression(self, env):
+        for operand in (self.left, self.right):
+            if not hasattr(operand, 'evalExpressionToString'):
+                raise ParseError("Invalid syntax: operator '{}' requires string operands: {}"
+                    .format(self.op, self))
         return OPS[self.op](self.left.evalExpressionToString(env),
                             self.right.evalExpressionToString(env))
 
